@@ -20,7 +20,7 @@ def fixtures():
 
 PAIR_CLASSES = ["related", "related", "related", "related", "unrelated", "fixture_mut", "sim_straddle",
                 "short_sources", "base64", "pointer_only", "mime_keys", "output_kinds", "attachments",
-                "meta_types", "separators", "move_dup", "identical", "minor_change", "line_endings", "diff_lookalike"]
+                "meta_types", "separators", "move_dup", "identical", "minor_change", "line_endings", "diff_lookalike", "long_repetitive"]
 
 
 def _code_cell(gen, minor, source, outputs=None):
@@ -160,6 +160,42 @@ def nb_pair(gen, cls=None, minor=None):
         c["source"] = edit_text(c["source"], gen, CODE_LINES)
         c["outputs"][0]["text"] = c["outputs"][0]["text"].replace("two", "TWO" + r.choice(EXOTIC_SEPS))
         c["outputs"][1]["data"]["text/plain"] = "p" + sep + "Q" + r.choice(EXOTIC_SEPS) + "r"
+    elif cls == "long_repetitive":
+        # long texts (50-150 lines) with many repeated lines (blank lines, progress output); the edit inserts or
+        # deletes a line next to an identical one, or touches a single line far from both ends
+        def long_text():
+            n = r.choice([52, 60, 75, 100, 150])
+            pool_ = ["", "", "Epoch %d/100" % r.randrange(3), "....", "x = x + 1", "# ---", "print(x)"]
+            lines = [r.choice(pool_) if r.random() < 0.7 else "unique line %d" % j for j in range(n)]
+            return lines
+        src = long_text()
+        out = long_text()
+        a["cells"].insert(0, _code_cell(gen, m, "\n".join(src) + "\n", [{"output_type": "stream", "name": "stdout", "text": "\n".join(out) + "\n"}]))
+        b = copy.deepcopy(a)
+
+        def edit_long(lines):
+            lines = list(lines)
+            cc = r.random()
+            k = r.randrange(1, len(lines) - 1)
+            if cc < 0.35:
+                lines.insert(k, lines[k])               # duplicate a line next to itself
+            elif cc < 0.6:
+                dup = [i for i in range(1, len(lines)) if lines[i] == lines[i - 1]]
+                if dup:
+                    del lines[r.choice(dup)]             # remove one of two equal neighbours
+                else:
+                    del lines[k]
+            elif cc < 0.8:
+                lines[k] = lines[k] + " changed"
+            else:
+                lines.insert(k, "inserted %d" % r.randrange(100))
+            return lines
+        which = r.choice(["source", "output", "both"])
+        if which in ("source", "both"):
+            b["cells"][0]["source"] = "\n".join(edit_long(src)) + "\n"
+        if which in ("output", "both"):
+            b["cells"][0]["outputs"][0]["text"] = "\n".join(edit_long(out)) + "\n"
+        rec.append(which)
     elif cls == "diff_lookalike":
         look = ["\\ No newline at end of file", "--- before", "+++ after", "@@ -1,3 +1,3 @@", "-removed", "+added", " context",
                 "diff --git a/before b/after", "index 000..111 100644", "<<<<<<< not a real marker", "text"]
@@ -201,7 +237,8 @@ def valid_pair(gen, cls=None, minor=None, tries=5):
 TRIPLE_CLASSES = ["random", "random", "random", "del_vs_edit", "del_vs_edit", "insert_near", "both_insert_similar",
                   "both_insert_dissimilar", "same_attachment", "same_meta_key", "same_output", "same_line",
                   "minor_diff", "retype", "empty_source", "both_append_outputs", "exec_count", "fixture",
-                  "nbmeta_conflict", "out_meta_conflict", "multi_line_meta"]
+                  "nbmeta_conflict", "out_meta_conflict", "multi_line_meta", "del_vs_transient", "del_vs_transient",
+                  "both_insert_lists"]
 
 
 def merge_triple(gen, cls=None, minor=None, plain_eol=False):
@@ -235,16 +272,80 @@ def merge_triple(gen, cls=None, minor=None, plain_eol=False):
         rem, r2 = mutate(base, gen, steps=r.choice([1, 2, 3, 5]), allow_minor=r.random() < 0.15)
         info = {"local": r1, "remote": r2}
     elif cls == "del_vs_edit":
-        what = r.choice(["edit_source", "edit_output", "cell_meta", "exec_count", "rerun", "attachments"])
         deleter, editor = (loc, rem) if r.random() < 0.5 else (rem, loc)
-        # editor edits cell k, deleter removes it
+        # editor edits cell k (one to three edits, possibly mixing transient and real ones), deleter removes it
         tmp = {"nbformat": 4, "nbformat_minor": m, "metadata": {}, "cells": [editor["cells"][k]]}
-        rec = mutate_once(tmp, gen, what)
+        rec = []
+        for _ in range(r.choice([1, 1, 2, 3])):
+            what = r.choice(["edit_source", "edit_source", "edit_output", "cell_meta", "exec_count", "rerun", "attachments", "transient_meta", "transient_meta"])
+            rec.append(mutate_once(tmp, gen, what) or what)
         del deleter["cells"][k]
         if r.random() < 0.4:
             deleter2, rr = mutate(deleter, gen, steps=1)
             deleter["cells"] = deleter2["cells"]
         info = {"k": k, "edit": rec or what, "deleter": "local" if deleter is loc else "remote"}
+    elif cls == "del_vs_transient":
+        # one side removes a cell or one of its outputs, the other changes ONLY transient fields of that item
+        # (execution counts, collapsed / scrolled / autoscroll)
+        c = gen.cell(m, "code")
+        c["execution_count"] = 3
+        c["outputs"] = [gen.output("execute_result", ec=3), gen.output("stream")][: r.choice([1, 2])]
+        c["outputs"][0]["execution_count"] = 3
+        pos = r.randrange(len(base["cells"]) + 1)
+        for nb in (base, loc, rem):
+            nb["cells"].insert(pos, copy.deepcopy(c))
+        deleter, changer = (loc, rem) if r.random() < 0.5 else (rem, loc)
+        what = r.choice(["cell", "output"])
+        if what == "cell":
+            del deleter["cells"][pos]
+        else:
+            del deleter["cells"][pos]["outputs"][0]
+        tc = changer["cells"][pos]
+        for _ in range(r.choice([1, 1, 2])):
+            cc = r.random()
+            if cc < 0.35 or what == "output":
+                tc["outputs"][0]["execution_count"] = (tc["outputs"][0]["execution_count"] or 0) + 4
+                if what == "cell" and r.random() < 0.5:
+                    tc["execution_count"] = (tc["execution_count"] or 0) + 4
+            elif cc < 0.6:
+                tc["execution_count"] = (tc["execution_count"] or 0) + 1
+            else:
+                tmp = {"nbformat": 4, "nbformat_minor": m, "metadata": {}, "cells": [tc]}
+                mutate_once(tmp, gen, "transient_meta")
+        info = {"pos": pos, "deleted": what, "deleter": "local" if deleter is loc else "remote"}
+    elif cls == "both_insert_lists":
+        # both sides insert LISTS of cells at one position: local items each have a similar, an identical or no
+        # counterpart on the remote side, and the remote side may have extra items (unequal lengths, offsets)
+        pos = r.randrange(len(base["cells"]) + 1)
+        litems, ritems = [], []
+        for j in range(r.choice([1, 2, 2, 3, 4])):
+            c1 = gen.cell(m, r.choice(["code", "markdown"]))
+            c1["source"] = "\n".join(gen.line(CODE_LINES) + " %d" % r.randrange(1000) for _ in range(4)) + "\n"
+            cc = r.random()
+            if cc < 0.3:
+                litems.append(c1)                      # local only
+            elif cc < 0.45:
+                ritems.append(c1)                      # remote only
+            elif cc < 0.6:
+                litems.append(c1)
+                c2 = copy.deepcopy(c1)
+                if "id" in c2 and r.random() < 0.5:
+                    c2["id"] = gen.new_id()
+                ritems.append(c2)                      # identical
+            else:
+                litems.append(c1)
+                c2 = copy.deepcopy(c1)
+                if "id" in c2 and r.random() < 0.7:
+                    c2["id"] = gen.new_id()
+                c2["source"] = edit_text(c2["source"], gen, CODE_LINES)
+                ritems.append(c2)                      # similar
+        if r.random() < 0.3:
+            ritems.insert(r.randrange(len(ritems) + 1), gen.cell(m))
+        for j, c_ in enumerate(litems):
+            loc["cells"].insert(pos + j, c_)
+        for j, c_ in enumerate(ritems):
+            rem["cells"].insert(pos + j, c_)
+        info = {"pos": pos, "nlocal": len(litems), "nremote": len(ritems)}
     elif cls == "insert_near":
         for side in (loc, rem):
             cc = r.random()
